@@ -92,6 +92,13 @@ def monitor(cfg, op, o):
             out.append(("create-over-existing-pair", f"{op} succeeded although getPair gave {pre['getpair'].get((a, b))}/{pre['getpair'].get((b, a))}"))
         if gp.get((a, b)) != na or gp.get((b, a)) != na:
             out.append(("created-pair-not-resolvable", f"{op}: getPair now gives {gp.get((a, b))}/{gp.get((b, a))}, created {na}"))
+    # ---- removal: removePair in EITHER token order unregisters the pair (it can no longer be looked up, listed,
+    #      managed or used as a hop - "only registered pairs ..." presupposes that a removed pair is not registered)
+    if k == "RemovePair" and o["ok"]:
+        _, c, a, b = op
+        was = pre["getpair"].get((a, b), 0) or pre["getpair"].get((b, a), 0)
+        if gp.get((a, b), 0) != 0 or gp.get((b, a), 0) != 0 or (was and was in o["all"]):
+            out.append(("removed-pair-still-registered", f"{op} succeeded but getPair gives {gp.get((a, b))}/{gp.get((b, a))}, managed {o['all']}"))
     # ---- registered pairs only
     if o["ok"] and k in ("Pause", "Resume", "RSetFeeOn", "RSetFeeOff", "SetLocalRoles", "IssueLp", "EnableSwap"):
         ad = op[2]
